@@ -236,7 +236,7 @@ func (d *delegate) MergeRemoteState(buf []byte, _ bool) {
 		}
 		if err := s.Merge(p.Data); err != nil {
 			d.logger.Warn("merge remote state", "err", err, "key", p.Key)
-			return
+			continue
 		}
 	}
 }
